@@ -388,6 +388,18 @@ Section Proofs.
   Qed.
 End Proofs.
 
+(* ---------- several calls on one list object ---------- *)
+
+Theorem verify_session_stateless {sigT addrT : Type} (addr_eqb : addrT -> addrT -> bool)
+        (recover : vote_msg -> sigT -> option addrT) round ps vals items blocks k h bid :
+  nth_error blocks k = Some (h, bid) ->
+  nth_error (verify_session addr_eqb recover round ps vals items blocks) k =
+  Some (verify_block addr_eqb recover h round bid ps vals items).
+Proof.
+  intro H.
+  exact (map_nth_error (fun hb => verify_block addr_eqb recover (fst hb) round (snd hb) ps vals items) k blocks H).
+Qed.
+
 (* ---------- the fast-sync path ---------- *)
 
 Lemma dedup_in l : forall x, In x (dedup l) <-> In x l.
